@@ -871,6 +871,33 @@ private:"""),
          old="    m_feature_infos.array() = 0x00;\n    m_feature_shuffles.clear();", new="    m_feature_shuffles.clear();"),
     dict(property="C08", name="iterator-ignores-permutation", rule="R-C08-10", file="include/nano/datasource/iterator.h", tu="src/generator.cpp",
          old="            return m_shuffled_all_samples(m_samples(m_index));", new="            return m_samples(m_index);"),
+    dict(property="C06", name="surrogate-gradient-walks-lower-triangle", rule="R-C06-2", file="src/tuner/surrogate.cpp",
+         old="""            for (tensor_size_t j = i; j < size; ++j)
+            {
+                gx(i) += m_model(k) * x(j);
+                gx(j) += m_model(k++) * x(i);""",
+         new="""            for (tensor_size_t j = 0; j <= i; ++j, ++k)
+            {
+                gx(i) += m_model(k) * x(j);
+                gx(j) += m_model(k) * x(i);"""),
+    dict(property="C15", name="string-reader-keeps-stale-content", rule="R-C15-7", file="include/nano/core/stream.h", tu="src/feature.cpp",
+         old="""    string.resize(size);
+    for (char& c : string)
+    {
+        read(stream, c);
+    }
+    return stream;""",
+         new="""    if (size > 0U)
+    {
+        string.resize(size);
+        for (char& c : string)
+        {
+            read(stream, c);
+        }
+    }
+    return stream;"""),
+    dict(property="C11", name="table-merge-compares-mapping-size-only", rule="R-C11-8", file="src/wlearner/table.cpp",
+         old="        if (hashes() == pother->hashes() && hash2tables() == pother->hash2tables())", new="        if (hashes() == pother->hashes() && hash2tables().size() == pother->hash2tables().size())"),
     # ---- C10
     dict(property="C10", name="accumulator-r1-sign", rule="R-C10-1", file="include/nano/wlearner/accumulator.h", tu="src/wlearner/accumulator.cpp",
          old="        r1(bin) -= vgrad;", new="        r1(bin) += vgrad;"),
@@ -1336,4 +1363,14 @@ BENIGN = [
          old="        fit_result.store(::selected(values, samples));", new="        auto fitted_values = ::selected(values, samples);\n        fit_result.store(std::move(fitted_values));"),
     dict(property="C20", name="percentile-position-product-commuted", file="include/nano/core/stats.h", tu="src/core/histogram.cpp",
          old="    const double position = percentage * static_cast<double>(size - 1) / 100.0;", new="    const double scaled   = static_cast<double>(size - 1) * percentage;\n    const double position = scaled / 100.0;"),
+    dict(property="C15", name="string-reader-bulk-read-into-sized-buffer", file="include/nano/core/stream.h", tu="src/feature.cpp",
+         old="""    string.resize(size);
+    for (char& c : string)
+    {
+        read(stream, c);
+    }
+    return stream;""",
+         new="""    string.resize(size);
+    read(stream, string.data(), size);
+    return stream;"""),
 ]
